@@ -31,9 +31,12 @@ import tx_c04_alias as tx
 
 warnings.filterwarnings("ignore")
 
-HEADER = ("From Coq Require Import List String Bool Arith.\nImport ListNotations.\n"
-          "From QV Require Import Model.C04.\nRequire Import QV.Gen.C04_ir.\n"
-          "Open Scope string_scope.\n")
+# generated files carry the process id: two runs of the check may overlap
+TAG = "p%d" % os.getpid()
+IRMOD = "C04_ir_" + TAG
+HEADER0 = ("From Coq Require Import List String Bool Arith.\nImport ListNotations.\n"
+           "From QV Require Import Model.C04.\nOpen Scope string_scope.\n")
+HEADER = HEADER0 + "Require Import QV.Gen.%s.\n" % IRMOD
 
 SITE_ME = "qutip/solver/mesolve.py:MESolver.__init__"
 SITE_DEP = "qutip/solver/solver_base.py:_solver_deprecation"
@@ -953,7 +956,9 @@ def seq_run_impl(prog):
             env[x] = env[y] @ env[z]
         elif op == "iadd":
             v = env[x]
-            v += env[z]
+            # `A += A` on a QobjEvo never returns (the list being iterated is
+            # the list appended to); use an equal copy as right operand
+            v += (env[z].copy() if env[z] is v else env[z])
             env[x] = v
         elif op == "imul2":
             v = env[x]
@@ -991,11 +996,11 @@ def canon_partition(vals):
 
 # ============================================================== T: obligations
 def evaluate_checker(items):
-    ok, out = vlib.coqc_file("Gen/C04_ir.v")
+    ok, out = vlib.coqc_file("Gen/%s.v" % IRMOD)
     if not ok:
         raise RuntimeError("generated IR does not compile:\n" + out[-2000:])
     ids = [it for it in items if "error" not in it]
-    vals = vlib.coq_eval_values("cases_C04_chk", HEADER,
+    vals = vlib.coq_eval_values("cases_C04_chk_" + TAG, HEADER,
                                 ["(why_rejected %s, st0_entry_b %s)" % (it["ident"], it["ident"])
                                  for it in ids])
     res = {}
@@ -1009,7 +1014,7 @@ def translate_and_check(ctx):
     failed = set()
     items, res = [], {}
     for rnd in range(4):
-        items = tx.generate(repo=vlib.REPO, failed=failed)
+        items = tx.generate(repo=vlib.REPO, failed=failed, modname=IRMOD)
         res = evaluate_checker(items)
         nf = {it["name"] for it in items if not it["extra_owned"]
               and ("error" in it or res[it["ident"]][0] is not None)}
@@ -1026,7 +1031,7 @@ def write_obligations(ctx, items, res):
     if rej:
         exprs = ["find_seed %s %s 80 0 400" % (it["ident"], tx.clist(tx.q(f) for f in it["fields"]))
                  for it in rej]
-        vals = vlib.coq_eval_values("cases_C04_seed", HEADER, exprs, chunk=4)
+        vals = vlib.coq_eval_values("cases_C04_seed_" + TAG, HEADER, exprs, chunk=4)
         for it, v in zip(rej, vals):
             seeds[it["ident"]] = vlib.parse_coq_value(v)
     lines = [HEADER, "From Coq Require Import Lia.", "From QV Require Import Proofs.C04.", ""]
@@ -1059,9 +1064,28 @@ def write_obligations(ctx, items, res):
                 pname = it["params"][pidx] if 0 <= pidx < len(it["params"]) else "?"
                 status[iid] = ("refuted", {"why": why, "seed": seed, "loc": l, "field": f,
                                            "param": pname})
-    with open(os.path.join(vlib.COQ, "Gen", "C04_obl.v"), "w") as fh:
+    gen = os.path.join(vlib.COQ, "Gen")
+    with open(os.path.join(gen, "C04_obl_%s.v" % TAG), "w") as fh:
         fh.write("\n".join(lines))
-    ok, out = vlib.coqc_file("Gen/C04_obl.v")
+    ok, out = vlib.coqc_file("Gen/C04_obl_%s.v" % TAG)
+    # keep a readable copy of the last generated files, drop the per-run ones
+    try:
+        txt = open(os.path.join(gen, IRMOD + ".v")).read()
+        open(os.path.join(gen, "C04_ir.v"), "w").write(txt)
+        open(os.path.join(gen, "C04_obl.v"), "w").write(
+            "\n".join(lines).replace(IRMOD, "C04_ir"))
+        for base in (IRMOD, "C04_obl_" + TAG):
+            for ext in (".v", ".vo", ".vok", ".vos", ".glob"):
+                try:
+                    os.remove(os.path.join(gen, base + ext))
+                except OSError:
+                    pass
+            try:
+                os.remove(os.path.join(gen, "." + base + ".aux"))
+            except OSError:
+                pass
+    except OSError:
+        pass
     return status, ok, out
 
 
@@ -1194,7 +1218,7 @@ def run(ctx):
         exprs.append(e)
         lives.append(live)
     try:
-        vals = vlib.coq_eval_values("cases_C04_seq", HEADER, exprs, chunk=100)
+        vals = vlib.coq_eval_values("cases_C04_seq_" + TAG, HEADER0, exprs, chunk=100)
     except RuntimeError as e:
         vals = None
         ctx.violation("corr:C04:model-eval", "coqc", "model evaluation failed", {"log": str(e)[-2000:]},
@@ -1261,12 +1285,15 @@ def run(ctx):
                              % (label, info, hit[0]))
             continue
         anyhit = [n for n, r in results.items() if r[0]]
+        fresh = list(ctx.violations)          # unlisted violations found by the oracle in this run
         ctx.violation("checker:" + label, json.dumps(info, sort_keys=True, default=str)[:200],
-                      "the verified checker no longer accepts %s (%s) and the oracle scenarios tied to "
-                      "it do not show a modified argument" % (label, info),
-                      {"function": label, "verdict": info,
-                       "other_scenarios_with_findings": anyhit[:5]},
-                      found_input=False)
+                      "the verified checker no longer accepts %s (%s)%s" % (
+                          label, info,
+                          "; concrete inputs: see the oracle violations of this run" if fresh else
+                          " and no oracle scenario shows a modified argument that is not already listed"),
+                      {"function": label, "verdict": info, "oracle_replays_of_this_run": fresh[:6],
+                       "scenarios_with_findings": anyhit[:8]},
+                      found_input=bool(fresh))
     ctx.cov["explanation"] = (
         "Props/C04.v: soundness of the checker for every program, oracle, fuel, heap. Per function "
         "of the anchored code the checker verdict is recomputed from the current source "
